@@ -12,6 +12,8 @@ pub const VALUES: &[&str] = &[
     "0.5", "-0.5", "1.5", "0.25em", "10px", ".75", "0.99999999999", "1e-5", "100%", "red", "#f00", "#ff0000", "#abcdef", "#aabbcc", "rgb(255, 0, 0)",
     "rgba(1, 2, 3, 0.5)", "hsl(120, 50%, 50%)", "transparent", "(1, 2)", "(1 2)", "(0.5, red)", "(a: 0.5)", "\"s\"", "s", "(1/2)", "[1, 0.5]", "(1, null, 0.5)",
     "calc(0.5px + 1%)", "true", "null", "(0.5 0.25, red blue)", "darken(#f00, 0%)", "1 + 0.5", "\"\\\"\"", "\"a b\"", "#{0.5}", "rebeccapurple", "#639", "#663399",
+    // identifiers ending in / containing escaped punctuation (last-declaration and block-end handling)
+    "x\\;", "\\{y", "z\\}", "w\\,v",
 ];
 
 pub const SITES: &[&str] = &[
